@@ -145,8 +145,8 @@ type genEntry struct {
 }
 
 type genCode struct {
-	structs map[string][]string          // XMsg -> field names in order
-	fields  map[string]map[int]genEntry  // MesgNumX -> slot -> entry
+	structs map[string][]string         // XMsg -> field names in order
+	fields  map[string]map[int]genEntry // MesgNumX -> slot -> entry
 	sdk     string
 	major   string
 	minor   string
